@@ -51,6 +51,8 @@ def generate(rng, tier):
         for _ in range(rng.choice([0, 0, 1, 2])):
             off = rng.choice([-0.3, -0.001, 0.0, 0.001, 0.1, 0.174, 0.175, 0.176, 0.3, 0.349, 0.35, 0.351, 0.5])
             nm = rng.choice(owned)
+            if rng.random() < 0.2:
+                nm = nm.upper()  # the other host spells the instance name in its own letter case: the same name
             ttl = rng.choice([4500, 4500, 120, 1, 0])
             ops.append({"t": round(t_reg + off + rng.choice([0.0, 0.0000005]), 7), "op": "send", "p": "O",
                         "msg": {"qr": 1, "an": [wire.RR(t1, wire.T_PTR, ttl, nm).to_json()]}})
@@ -60,6 +62,8 @@ def generate(rng, tier):
         chain = rng.choice([1, 2, 4])
         owned = [svc["name"]] + [f"{base}-{k}.{t1}" for k in range(2, chain + 1)]
         for nm in owned:
+            if rng.random() < 0.15:
+                nm = nm.upper()
             ops.append({"t": round(t_reg - rng.choice([0.2, 1.0, 0.0005]), 6), "op": "send", "p": "O",
                         "msg": {"qr": 1, "an": [wire.RR(t1, wire.T_PTR, rng.choice([4500, 1125, 2]), nm).to_json()]}})
         if rng.random() < 0.35:
